@@ -169,6 +169,65 @@ func TestC04ListenerShares(t *testing.T) {
 				t.Fatalf("%d full round-robin cycles over %d equally weighted targets: target %d got %d connections, want %d\n%s", cycles, n, i, got[i], cycles, desc)
 			}
 		}
+		// the table changes while the listener is up (one instance leaves, another one may join):
+		// from then on the shares are those of the new table, on this listener kind as on any other
+		if rapid.Bool().Draw(t, "table-changes-while-listening") {
+			var text2 strings.Builder
+			in2 := map[int]bool{}
+			for i := 1; i < n; i++ {
+				in2[i] = true
+			}
+			if n < maxUp && rapid.Bool().Draw(t, "newcomer") {
+				in2[n] = true
+			}
+			for i := 0; i < maxUp; i++ {
+				if in2[i] {
+					fmt.Fprintf(&text2, "route add svc %s %s://%s\n", src, scheme, ups[i].Addr())
+				}
+			}
+			tbl2, err := route.NewTable(bytes.NewBufferString(text2.String()))
+			if err != nil {
+				t.Fatal(err)
+			}
+			route.SetTable(tbl2)
+			for i := range counts {
+				atomic.StoreInt64(&counts[i], 0)
+			}
+			n2 := len(in2)
+			N2 := cycles * n2
+			for k := 0; k < N2; k++ {
+				c, err := net.DialTimeout("tcp", addr, 2*time.Second)
+				if err != nil {
+					t.Fatalf("VERIF-INCONCLUSIVE dial: %v", err)
+				}
+				c.SetDeadline(time.Now().Add(5 * time.Second))
+				switch kind {
+				case "http":
+					fmt.Fprintf(c, "GET / HTTP/1.1\r\nHost: h\r\nConnection: close\r\n\r\n")
+				case "tcp":
+					c.Write([]byte("ping"))
+				default:
+					c.Write(c18Hello("sni.example"))
+				}
+				io.ReadAll(c)
+				c.Close()
+			}
+			hx.EvalN(N2)
+			var got2 []int64
+			for i := 0; i < maxUp; i++ {
+				got2 = append(got2, atomic.LoadInt64(&counts[i]))
+			}
+			for i := 0; i < maxUp; i++ {
+				want := int64(0)
+				if in2[i] {
+					want = int64(cycles)
+				}
+				if d := got2[i] - want; d < -1 || d > 1 || (!in2[i] && got2[i] != 0) {
+					t.Fatalf("%s listener: after the table was replaced by\n%sthe next %d connections went to the upstreams as %v, want %d each on the targets of the new table and none elsewhere\n(before the change: %s)", kind, text2.String(), N2, got2, cycles, desc)
+				}
+			}
+			hx.Class("listener-shares-after-a-table-change:" + kind)
+		}
 		hx.Class("listener-shares:" + kind)
 		hx.NonTrivial(fmt.Sprintf("%s|%v", kind, weights))
 		if hx.WantSample("listener-shares") {
